@@ -50,6 +50,7 @@ type Mutex struct {
 }
 
 func (m *Mutex) Lock() {
+	verifdetrt.SyncPoint()
 	acquire(uintptr(unsafe.Pointer(m)), true)
 	m.mu.Lock()
 	if !m.locked {
@@ -75,10 +76,12 @@ func (m *Mutex) Unlock() {
 		m.waiters = m.waiters[1:]
 		m.mu.Unlock()
 		close(w)
+		verifdetrt.SyncPoint()
 		return
 	}
 	m.locked = false
 	m.mu.Unlock()
+	verifdetrt.SyncPoint()
 }
 
 func (m *Mutex) TryLock() bool {
@@ -127,6 +130,7 @@ func (m *RWMutex) grant() {
 }
 
 func (m *RWMutex) Lock() {
+	verifdetrt.SyncPoint()
 	acquire(uintptr(unsafe.Pointer(m)), true)
 	m.mu.Lock()
 	if !m.writer && m.readers == 0 && len(m.queue) == 0 {
@@ -150,9 +154,11 @@ func (m *RWMutex) Unlock() {
 	m.writer = false
 	m.grant()
 	m.mu.Unlock()
+	verifdetrt.SyncPoint()
 }
 
 func (m *RWMutex) RLock() {
+	verifdetrt.SyncPoint()
 	acquire(uintptr(unsafe.Pointer(m)), false)
 	m.mu.Lock()
 	if !m.writer && len(m.queue) == 0 {
@@ -178,6 +184,7 @@ func (m *RWMutex) RUnlock() {
 		m.grant()
 	}
 	m.mu.Unlock()
+	verifdetrt.SyncPoint()
 }
 
 func (m *RWMutex) TryLock() bool {
